@@ -122,6 +122,10 @@ pub(crate) struct WorkItem {
     pub(crate) data: WorkData,
     pub(crate) status: WorkStatus,
     pub(crate) external_file_dependencies: HashSet<PathBuf>,
+    /// whether an earlier pass wrote the output of this item (kept across resets)
+    pub(crate) output_written: bool,
+    /// whether the last pass skipped this item because of the filters of the configuration
+    pub(crate) skipped: bool,
 }
 
 impl WorkItem {
@@ -133,6 +137,8 @@ impl WorkItem {
             },
             status: Default::default(),
             external_file_dependencies: Default::default(),
+            output_written: false,
+            skipped: false,
         }
     }
 
@@ -155,5 +161,6 @@ impl WorkItem {
     pub(crate) fn reset(&mut self) {
         self.status = WorkStatus::NotStarted;
         self.external_file_dependencies.clear();
+        self.skipped = false;
     }
 }
